@@ -31,8 +31,16 @@ padded and CDATA values, children in any order, relativePath, name/description/l
 <dependencies/> and <dependencyManagement/> elements). Universes in which an imported BOM and an inherited managed entry disagree are classified, not judged. \
 Separate streams violate each hypothesis (imports before managed entries, child re-declaring a parent's dependency, missing POMs/versions, \
 non-pom parents, undeserialisable XML, cyclic universes under a download budget) and are compared with the model only. \
-Exhaustive 5x5(+5 omitted) scope-table universes. Forest::breadth_first_retain/breadth_first on random forests of integers with three stateful \
-predicates; MavenCoord/FoundDependency/DependencyScope print/parse on generated (separator-free) and separator-laden strings. \
+Exhaustive 5x5(+5 omitted) scope-table universes. \
+Stream fill-in-matrix: every subset of {version, scope, optional} declared on a dependency x (no managed entry | an entry in the POM's own dependencyManagement, its parent's, or an imported BOM, \
+fixing the version and every subset of {scope, optional}) x two value sets (+ a typed dependency whose classifier is the type's default on one side and explicit on the other), judged field by field \
+(declared, else managed, else default) and by the reference resolver. Stream cyclic-fixed: dependency / parent / import cycles of length 1..3 (stopped by the download budget; compared with the model, which has no answer for any fuel) \
+and cycles that close only through a cut edge (must resolve). Stream edge-cases: no repositories, no roots, duplicate roots, roots that are dependencies of other roots, serving repository last. \
+Artifact names with non-ASCII and non-BMP letters, versions with empty build numbers, empty prefixes, full-width and Arabic-Indic digits in the snapshot time stamp, packagings outside the handler table. \
+Every universe is written as a crumb before get_maven_dependencies is called (a crash, stack overflow or endless loop is reported with it). Forest::breadth_first_retain/breadth_first on random forests of integers with three stateful \
+predicates; MavenCoord/FoundDependency/DependencyScope print/parse on generated (separator-free) and separator-laden strings; free texts of 0..7 pieces against the documented form \
+`group:artifact[:type[:classifier]]:version`; FoundDependency::make_url (all handler-table types and others, time-stamped snapshot versions) against the repository layout; \
+MavenCoord::from_group_artifact_version; Display/Debug of Tree and FormattedTree with both palettes, read back into the tree. \
 A resolve case is non-trivial when the result has at least 2 dependencies; distinct by canonical text of the input.".into();
 
 	resolve::scope_table_cases(&mut r)?;
@@ -41,6 +49,9 @@ A resolve case is non-trivial when the result has at least 2 dependencies; disti
 	resolve::documented_examples(&mut r)?;
 	resolve::cut_cases(&mut r)?;
 	resolve::type_pair_cases(&mut r)?;
+	resolve::fill_in_cases(&mut r)?;
+	resolve::cyclic_cases(&mut r)?;
+	resolve::edge_cases(&mut r)?;
 	resolve::mediation_cases(&mut r, &mut rng.fork(4), if ctx.thorough { 3000 } else { 300 })?;
 	r.notes.push(format!("stack of the harness thread: {} MiB (deep async recursion of the crate on cyclic universes, stopped by a download budget of 400)", STACK_MIB.load(std::sync::atomic::Ordering::SeqCst)));
 	let n_tree = if ctx.thorough { 3000 } else { 500 };
